@@ -225,6 +225,37 @@ def rule_gridflow_budget(ctx: Ctx) -> RuleResult:
     return rr
 
 
+def rule_relative_space_clamp(ctx: Ctx) -> RuleResult:
+    """A relative width / height is a percentage of the space left after the fixed margins.  When the margins alone
+    exceed the available space that remainder is negative and must be clamped to 0 *before* it is scaled (as
+    Pile.get_item_rows clamps before sharing, C19.2b): scaling a negative remainder gives a negative child size and
+    margins whose sum exceeds the space."""
+    p = ctx.p
+    rr = RuleResult("PASS", "C19.7", "the space a relative size is a percentage of is clamped to >= 0 (max(avail - margin - margin, 0)) in both placement helpers", floor=2)
+    for q in ("urwid.widget.padding.calculate_left_right_padding", "urwid.widget.filler.calculate_top_bottom_filler"):
+        fi = p.func(q)
+        avail, m1, m2 = fi.params[0], fi.params[-2], fi.params[-1]
+        want = {avail: 1, m1: -1, m2: -1}
+        hits = []
+        for n in fi.own_nodes():
+            if isinstance(n, ast.Assign) and len(n.targets) == 1 and isinstance(n.targets[0], ast.Name):
+                v = n.value
+                inner = v
+                clamped = False
+                if isinstance(v, ast.Call) and callee_name(v) == "max" and len(v.args) == 2 and any(isinstance(a, ast.Constant) and a.value == 0 for a in v.args):
+                    inner = next(a for a in v.args if not (isinstance(a, ast.Constant) and a.value == 0))
+                    clamped = True
+                if linear(inner) == want and n.targets[0].id not in (m1, m2):
+                    hits.append((n, clamped))
+        rr.inst(short(fi), True, {"function": short(fi), "remaining_space": [norm(n, 60) for n, _ in hits]})
+        if not hits:
+            raise AnalysisError(f"{q}: the definition of the space left after the margins (avail - {m1} - {m2}) was not found")
+        for n, clamped in hits:
+            if not clamped:
+                rr.add(finding("PASS", fi, n, f"`{norm(n, 60)}` is the space a relative size is scaled from, without max(., 0): when the fixed margins alone exceed the available space the child gets a negative size and the margins add up to more than the space", construct=f"relative space not clamped: {norm(n, 60)}"))
+    return rr
+
+
 def run(ctx: Ctx):
     p = ctx.p
     return [
@@ -236,6 +267,7 @@ def run(ctx: Ctx):
         rule_gridflow_budget(ctx),
         axis.run_axis(p, "C19.5", ("urwid.widget",), floor=60),
         accum.run_accum(p, "C19.6", "C19", floor=2),
+        rule_relative_space_clamp(ctx),
     ]
 
 
@@ -245,6 +277,7 @@ _PD = "urwid/widget/padding.py"
 _FL = "urwid/widget/filler.py"
 _G = "urwid/widget/grid_flow.py"
 MUTANTS = [
+    Mut("relative-height-from-negative-space", "urwid/widget/filler.py", "calculate_top_bottom_filler", "maxheight = max(maxrow - top - bottom, 0)", "maxheight = maxrow - top - bottom", "PASS|widget.filler.calculate_top_bottom_filler"),
     Mut("drop-loop-skips-hidden-columns", "urwid/widget/columns.py", "Columns.column_widths", "            shared += width_ + self.dividechars\n            widths[i] = 0", "            if not width_:\n                continue\n            shared += width_ + self.dividechars\n            widths[i] = 0", "ACCUM|widget.columns.Columns.column_widths"),
     Mut("overlay-valign-from-align-amount", "urwid/widget/overlay.py", "Overlay.calculate_padding_filler", "                self.valign_type,\n                self.valign_amount,\n                self.height_type,", "                self.valign_type,\n                self.align_amount,\n                self.height_type,", "AXIS|widget.overlay.Overlay.calculate_padding_filler"),
     Mut("filler-top-bottom-swapped", "urwid/widget/filler.py", "Filler.filler_values", "            self.min_height,\n            self.top,\n            self.bottom,", "            self.min_height,\n            self.bottom,\n            self.top,", "AXIS|widget.filler.Filler.filler_values"),
